@@ -39,7 +39,8 @@ class Env:
     """One scratch build of /repo's working tree."""
 
     def __init__(self, keep=False):
-        self.root = tempfile.mkdtemp(prefix="vchk_")
+        base = "/dev/shm" if os.path.isdir("/dev/shm") and os.access("/dev/shm", os.W_OK) else None
+        self.root = tempfile.mkdtemp(prefix="vchk_", dir=os.environ.get("VERIF_SCRATCH") or base)
         self.keep = keep
         atexit.register(self.cleanup)
         self.ferret = os.path.join(self.root, "ferret")
